@@ -120,7 +120,7 @@ def run(res):
     ok, out = lib.build_coq(["theories/Model/CommitmentCheck.vo"])
     if not ok:
         raise lib.Fail("Model/CommitmentCheck.v does not build:\n" + out[-2000:])
-    n = int(os.environ.get("VERIF_C04_N", "64" if quick else "320"))
+    n = int(os.environ.get("VERIF_C04_N", "64" if quick else "240"))
     n_digest = 6 if quick else 24
     t0 = time.time()
     gen = lib.run_harness("commit", "gen", res.seed, n, res.tier)
